@@ -179,26 +179,18 @@ impl BufferManager {
         size: usize,
         region: MemoryRegion,
     ) -> Option<MemoryGrant> {
-        // Check if we can allocate
-        let current = self.allocated.load(Ordering::Relaxed);
-
-        if current + size > self.hard_limit {
+        // Reserve atomically: the limit check and the update are one step, so concurrent
+        // requests cannot jointly exceed the hard limit
+        if !self.try_reserve(size) {
             // Try eviction first
             self.run_eviction_cycle(true);
 
             // Check again
-            let current = self.allocated.load(Ordering::Relaxed);
-            if current + size > self.hard_limit {
+            if !self.try_reserve(size) {
                 return None;
             }
         }
 
-        // verification builds: another thread may run between the limit check and the update
-        #[cfg(kani)]
-        crate::verif_yield(1);
-
-        // Perform allocation
-        self.allocated.fetch_add(size, Ordering::Relaxed);
         self.region_allocated[region.index()].fetch_add(size, Ordering::Relaxed);
 
         // Check pressure and potentially trigger background eviction
@@ -292,6 +284,21 @@ impl BufferManager {
 
     // === Internal methods ===
 
+    /// Adds `size` to the allocated total if, and only if, the result stays within the
+    /// hard limit (and does not overflow). Check and update are a single atomic step.
+    fn try_reserve(&self, size: usize) -> bool {
+        self.allocated
+            .fetch_update(Ordering::Relaxed, Ordering::Relaxed, |current| {
+                // verification builds: another thread may run between the load and the update
+                #[cfg(kani)]
+                crate::verif_yield(1);
+                current
+                    .checked_add(size)
+                    .filter(|&total| total <= self.hard_limit)
+            })
+            .is_ok()
+    }
+
     fn compute_pressure_level(&self, current: usize) -> PressureLevel {
         if current >= self.hard_limit {
             PressureLevel::Critical
@@ -367,19 +374,15 @@ impl GrantReleaser for BufferManager {
     }
 
     fn try_allocate_raw(&self, size: usize, region: MemoryRegion) -> bool {
-        let current = self.allocated.load(Ordering::Relaxed);
-
-        if current + size > self.hard_limit {
+        if !self.try_reserve(size) {
             // Try eviction
             self.run_eviction_cycle(true);
 
-            let current = self.allocated.load(Ordering::Relaxed);
-            if current + size > self.hard_limit {
+            if !self.try_reserve(size) {
                 return false;
             }
         }
 
-        self.allocated.fetch_add(size, Ordering::Relaxed);
         self.region_allocated[region.index()].fetch_add(size, Ordering::Relaxed);
         true
     }
